@@ -48,12 +48,18 @@ def same_union(R: Any, T_: Any, nr: Any = None, nt: Any = None) -> Any:
     return z3.And(covers(R, nr, T_, nt), covers(T_, nt, R, nr))
 
 
-def no_declared_any(ct, R: Any) -> Any:
+def no_declared_any(ct, R: Any, n: Any = None) -> Any:
     j = z3.Int("nj")
-    return z3.ForAll([j], z3.Implies(z3.And(0 <= j, j < M.llen(R)),
+    return z3.ForAll([j], z3.Implies(z3.And(0 <= j, j < (M.llen(R) if n is None else n)),
                                      z3.Not(z3.And(M.isinstance_f(ct, M.lat(R, j), "AnySchema"),
                                                    S.declared(M.lat(R, j), "types")))),
                      patterns=[M.lat(R, j)])
+
+
+def same_items(A: Any, B: Any, n: Any) -> Any:
+    """the first n items of A are those of B, in order"""
+    j = z3.Int("sij")
+    return z3.ForAll([j], z3.Implies(z3.And(0 <= j, j < n), M.lat(A, j) == M.lat(B, j)), patterns=[M.lat(A, j)])
 
 
 @contract(ANY, "AnySchema._flatten_schemas", props=("C13", "C10", "C07", "C17"), group="combinators")
@@ -72,6 +78,9 @@ def _flatten(c):
     c.ensures("same-union", lambda r, post: same_union(r, t), ("C13",))
     c.ensures("flat", lambda r, post: no_declared_any(ct, r), ("C13",))
     c.ensures("non-empty", lambda r, post: z3.Implies(M.llen(t) > 0, M.llen(r) > 0), ("C13", "C12"))
+    # nothing to flatten: the alternatives are kept as they are, in order (what repr / eval round-trips rely on, C06)
+    c.ensures("identity-when-flat", lambda r, post: z3.Implies(
+        no_declared_any(ct, t), z3.And(M.llen(r) == M.llen(t), same_items(r, t, M.llen(t)))), ("C06", "C13"))
 
 
 @invariant(ANY, "AnySchema._flatten_schemas", loop=0)
@@ -81,7 +90,8 @@ def _inv_flatten(L):
     v = z3.Const("iv", Obj)
     return z3.And(M.is_Ref(fl), M.rcls(fl) == ct.id("list"), schemas_tuple(ct, fl), no_declared_any(ct, fl),
                   z3.Implies(L.i > 0, M.llen(fl) > 0),
-                  same_union(fl, t, M.llen(fl), L.i))
+                  same_union(fl, t, M.llen(fl), L.i),
+                  z3.Implies(no_declared_any(ct, t, L.i), z3.And(M.llen(fl) == L.i, same_items(fl, t, L.i))))
 
 
 def _any_unfold_axioms(ct) -> List[Any]:
@@ -129,6 +139,17 @@ def _any_call(c):
                       z3.Or(M.conforms(t0, v), M.anyok(ts, M.llen(ts), v)),
                       patterns=[M.anyok(R, M.llen(R), v)]))
     c.ensures("union", union_ok, ("C13",))
+
+    def kept_when_flat(r, post):
+        # no argument is itself a declared union: the alternatives are the arguments, in order (C06 relies on it)
+        R = S.prop(r, "types")
+        dany = lambda x: z3.And(M.isinstance_f(ct, x, "AnySchema"), S.declared(x, "types"))
+        jj = z3.Int("kfj")
+        return z3.Implies(z3.And(z3.Not(dany(t0)), no_declared_any(ct, ts)),
+                          z3.And(M.llen(R) == 1 + M.llen(ts), M.lat(R, 0) == t0,
+                                 z3.ForAll([jj], z3.Implies(z3.And(0 <= jj, jj < M.llen(ts)), M.lat(R, jj + 1) == M.lat(ts, jj)),
+                                           patterns=[M.lat(ts, jj)])))
+    c.ensures("alternatives-kept-when-flat", kept_when_flat, ("C06", "C13"))
     c.ensures("invariant", lambda r, post: z3.And(*S.reach_def(ct, "AnySchema", r)), ("C10",))
     c.ensures("unfold", lambda r, post: S.unfold_defs(ct, "AnySchema", r), ("C13",))
 
